@@ -70,6 +70,18 @@ func validA58(a58 []byte) (bool, error) {
 		return false, ErrEncodingInvalidVersion
 	}
 
+	// Base58Check encodes every leading zero byte as one leading '1', no more and no fewer.
+	ones, zeros := 0, 0
+	for ones < len(a58) && a58[ones] == '1' {
+		ones++
+	}
+	for zeros < len(a) && a[zeros] == 0 {
+		zeros++
+	}
+	if ones != zeros {
+		return false, ErrInvalidAddressLength
+	}
+
 	if a.embeddedChecksum() != a.computeChecksum() {
 		return false, ErrEncodingChecksumFailed
 	}
